@@ -71,8 +71,10 @@ func patFeat(p string) string {
 }
 
 func runC17(r *Runner, tier string, rng *Rng) {
-	palpha := []string{"a", "b", "/", "*", "?", "[", "]", "^", "-", "\\"}
-	nalpha := []string{"a", "b", "/", "-", "]"}
+	// "!" is NOT a metacharacter of this grammar (it is one in fnmatch/path.Match dialects): a class
+	// that starts with it contains it (seeded change c17-bang-negates-class)
+	palpha := []string{"a", "b", "/", "*", "?", "[", "]", "^", "-", "\\", "!"}
+	nalpha := []string{"a", "b", "/", "-", "]", "!"}
 	pl, nl, nrand := 3, 3, 20000
 	if tier == "thorough" {
 		pl, nl, nrand = 5, 4, 400000
@@ -108,7 +110,7 @@ func runC17(r *Runner, tier string, rng *Rng) {
 	// (seeded change c17-scan-escape-in-class needs `[\]*]`)
 	plain := []string{"a", "b", "c", "/", "z", ".", "é", "€"}
 	esc := []string{"\\]", "\\-", "\\\\", "\\*", "\\[", "\\^", "\\?", "\\a"}
-	inClassLit := []string{"*", "?", "[", "^", "*", "*"}
+	inClassLit := []string{"*", "?", "[", "^", "*", "*", "!", "!"}
 	genClass := func() (string, []string) {
 		var sb strings.Builder
 		var members []string
@@ -190,8 +192,8 @@ func runC17(r *Runner, tier string, rng *Rng) {
 	}
 	flush()
 	// random longer ASCII and UTF-8 pairs
-	ralpha := []string{"a", "b", "c", "/", "*", "*", "?", "?", "[", "]", "^", "-", "\\", "é", "€", "😀", "z", ".", "ä"}
-	rnalpha := []string{"a", "b", "c", "/", "-", "]", "é", "€", "😀", "z", ".", "ä", "^", "["}
+	ralpha := []string{"a", "b", "c", "/", "*", "*", "?", "?", "[", "]", "^", "-", "\\", "é", "€", "😀", "z", ".", "ä", "!", "{", ","}
+	rnalpha := []string{"a", "b", "c", "/", "-", "]", "é", "€", "😀", "z", ".", "ä", "^", "[", "!", "{", ","}
 	for i := 0; i < nrand/8; i++ {
 		var sb strings.Builder
 		n := 1 + rng.Intn(10)
@@ -239,5 +241,5 @@ func runC17(r *Runner, tier string, rng *Rng) {
 		}
 	}
 	flush()
-	r.St.Rule = "exhaustive: every pattern of length <= L over {a b / * ? [ ] ^ - \\} against every name of length <= M over {a b / - ]} (one evaluation = one pattern against the whole name list); grammar-directed: 1-4 items (literal, escape of any metacharacter, * , ?, classes whose members are plain / escaped / in-class-literal metacharacters / ranges, some malformed) with names assembled from per-item candidates; random: patterns of length <= 10 over ASCII + 2/3/4-byte UTF-8 with names derived from the pattern or random. A class is (metacharacter set of the pattern, vector of verdicts); non-trivial = non-empty pattern."
+	r.St.Rule = "exhaustive: every pattern of length <= L over {a b / * ? [ ] ^ - \\ !} against every name of length <= M over {a b / - ] !} (one evaluation = one pattern against the whole name list); grammar-directed: 1-4 items (literal, escape of any metacharacter, * , ?, classes whose members are plain / escaped / in-class-literal metacharacters / ranges, some malformed) with names assembled from per-item candidates; random: patterns of length <= 10 over ASCII + 2/3/4-byte UTF-8 with names derived from the pattern or random. A class is (metacharacter set of the pattern, vector of verdicts); non-trivial = non-empty pattern."
 }
